@@ -38,7 +38,34 @@ def build(name, cfg):
 
 
 def sample_cfg(rng, name):
-    """Detector knobs, randomised per run (JSON-able kwargs)."""
+    """Detector knobs, randomised per run (JSON-able kwargs).  About one run in ten gets one knob at a legal extreme."""
+    cfg = _sample_cfg(rng, name)
+    if rng.random() < 0.1 and name in _EXTREME:
+        k, vals = rng.choice(_EXTREME[name])
+        cfg[k] = rng.choice(vals)
+    return cfg
+
+
+# legal but unusual knob values (the properties quantify over all parameter settings); one knob per run
+_EXTREME = {
+    "ADWIN": [("delta", [1e-12, 1e-300]), ("new_sample_thresh", [1]), ("max_buckets", [1, 12])],
+    "ADWINAccuracy": [("delta", [1e-12, 1e-300]), ("max_buckets", [1, 12])],
+    "CUSUM": [("threshold", [0, 0.5, 1e6]), ("delta", [0, 3.0])],
+    "PageHinkley": [("delta", [0, 2.0]), ("threshold", [0.1, 1e6])],
+    "DDM": [("warning_scale", [0]), ("drift_scale", [0, 50.0])],
+    "EDDM": [("drift_thresh", [0.0, 1.0]), ("warning_thresh", [1.0, 0.0])],
+    "STEPD": [("alpha_drift", [1e-20, 0.0, 0.9]), ("alpha_warning", [0.99, 1e-20])],
+    "LinearFourRates": [("detect_level", [0.5, 0.001]), ("warning_level", [0.6]), ("time_decay_factor", [0.0, 0.999])],
+    "KdqTreeStreaming": [("persistence", [0.0, 1.0]), ("alpha", [0.9, 0.001]), ("count_ubound", [1, 50])],
+    "PCACD": [("delta", [0.0, 0.5]), ("ev_threshold", [0.5, 0.999])],
+    "KdqTreeBatch": [("alpha", [0.9, 0.001]), ("count_ubound", [1, 50])],
+    "HDDDM": [("significance", [0.9, 0.001]), ("subsets", [1, 8])],
+    "CDBD": [("significance", [0.9, 0.001]), ("subsets", [1, 8])],
+    "NNDVI": [("alpha", [0.9, 0.001]), ("k_nn", [1])],
+}
+
+
+def _sample_cfg(rng, name):
     if name in ("ADWIN", "ADWINAccuracy"):
         return {"delta": rng.choice([0.002, 0.1, 0.5, 1.0]), "max_buckets": rng.randint(1, 5),
                 "new_sample_thresh": rng.choice([1, 3, 8, 32]), "window_size_thresh": rng.randint(0, 10),
